@@ -13,7 +13,7 @@ EXPLANATION = ('Symbolic execution of the real formatter with the WHOLE Formatte
                'string bodies. Checked: parse-equivalence of output and input (decoded string values solver-compared), comments preserved in order, idempotence.')
 ASSUMPTIONS = ['end_of_line=lf, indent_before_comments one space, use_editor_config off (editorconfig discovery is file I/O)', 'max_line_length 0..40, tab_width 1..8, indent_by: empty | 1 space | 4 spaces | tab',
                'programs: the listed corpus and templates; string bodies <= 2 characters over {a, quote, backslash, n, newline, @}']
-OUT = 'editorconfig discovery and match_path, recursive/in-place file handling, programs beyond the corpus/templates, non-ASCII'
+OUT = 'editorconfig discovery and match_path, --recursive beyond the tree shapes of the recursive obligation (--subprojects), programs beyond the corpus/templates, non-ASCII'
 MANIFEST = dict(
     text='Bounded symbolic decision over ALL formatter configurations at once (symbolic config) for each program of the corpus and each template with symbolic string bodies: '
          'same program after formatting, same comments, format(format(x)) == format(x).',
@@ -299,6 +299,58 @@ def ob_check_mode():
     return h
 
 
+# directory names as (name on disk, spelling inside a meson string literal)
+REC_NAMES = [('plain', 'plain'), ("it's", "it\\'s"), ('a b', 'a b'), ('x\\y', 'x\\\\y'), ('A', '\\x41')]
+
+
+def ob_recursive():
+    """`meson format --recursive` with --check-only / --check-diff / --inplace on real files in a scratch directory (the real run() loop, the real SubdirFetcher,
+    the real Formatter): every build file reachable through subdir() - whatever characters the directory name needs escaped in the build file - is read; the exit
+    status is 1 iff formatting would change one of them; --check-diff names exactly those; --inplace leaves every one of them formatted"""
+    def h():
+        import io, contextlib, argparse, tempfile, shutil
+        d = Path(tempfile.mkdtemp(prefix='c16rec'))
+        try:
+            name, spelled = REC_NAMES[choose(len(REC_NAMES), 'directory name')]
+            nested = choose(2, 'a subdir() inside the subdirectory') == 1
+            bad = [choose(2, 'file %d needs formatting' % i) == 1 for i in range(3 if nested else 2)]
+            body = lambda b: 'x=1\n' if b else 'x = 1\n'
+            files = [(d / 'meson.build', "project('p')\nsubdir('%s')\n" % spelled + body(bad[0])),
+                     (d / name / 'meson.build', ("subdir('in')\n" if nested else '') + body(bad[1]))]
+            if nested: files.append((d / name / 'in' / 'meson.build', body(bad[2])))
+            for p, t in files:
+                p.parent.mkdir(parents=True, exist_ok=True); p.write_text(t, encoding='utf-8')
+            mode = choose(3, 'mode')          # --check-only | --check-diff | --inplace
+            opts = argparse.Namespace(output=None, sources=[d], recursive=True, subprojects=False, inplace=mode == 2, check_only=mode == 0, check_diff=mode == 1,
+                                      source_file_path=None, editor_config=False, configuration=None)
+            buf = io.StringIO()
+            try:
+                with contextlib.redirect_stdout(buf):
+                    rc = MF.run(opts)
+            except ME:
+                check(False, 'every build file reachable through subdir() is read'); return
+            ref = MF.Formatter(None, False, False)
+            want = [ref.format(t, p) for p, t in files]
+            would_change = [w != t for w, (p, t) in zip(want, files)]
+            check(would_change == bad, 'harness: exactly the files written unformatted would change')
+            if mode == 2:
+                check(rc == 0, '--inplace succeeds')
+                for (p, t), w in zip(files, want):
+                    check(p.read_text(encoding='utf-8') == w, '--inplace --recursive leaves every reachable build file formatted')
+            else:
+                check(rc == (1 if any(would_change) else 0), '--recursive: exit status 1 iff formatting would change some reachable file')
+                for (p, t), w in zip(files, want):
+                    check(p.read_text(encoding='utf-8') == t, 'a check mode writes nothing')
+                if mode == 1:
+                    out = buf.getvalue()
+                    for (p, t), w in zip(files, would_change):
+                        check((('--- ' + str(p)) in out) == w, '--check-diff --recursive prints a diff for exactly the reachable files that would change')
+            cover('differs' if any(would_change) else 'clean')
+        finally:
+            shutil.rmtree(d, ignore_errors=True)
+    return h
+
+
 def obligations(tier):
     q = tier == 'quick'
     out = []
@@ -324,4 +376,6 @@ def obligations(tier):
             out.append(Obligation('template[%d,%d]' % (k, n), ob_template(k, n), dict(template=TEMPLATES[k]('<BODY>'), body_len=n, alphabet=SB, configuration='fully symbolic'),
                                   labels=('done',), max_paths=5000000, classify=classify))
     out.append(Obligation('check-mode', ob_check_mode(), dict(files='1-3 out of %d texts (3 formatted, 3 not)' % len(CLI_TEXTS), mode='--check-only | --check-diff', real='mformat.run, Formatter.format'), labels=('differs', 'clean')))
+    out.append(Obligation('recursive', ob_recursive(), dict(real='mformat.run with --recursive, SubdirFetcher, Formatter.format on a scratch directory', directory_names=[n for n, s in REC_NAMES], spelled=[s for n, s in REC_NAMES],
+                          tree='top + subdirectory (+ nested subdirectory)', unformatted='any subset', mode='--check-only | --check-diff | --inplace'), labels=('differs', 'clean')))
     return out
